@@ -1,4 +1,5 @@
 import PoorProofs.Lemmas.HeaderValue
+import PoorProofs.Lemmas.Date
 import PoorModel.Gen.Patterns
 import Std.Data.String.ToNat
 /-
@@ -453,5 +454,31 @@ theorem C18_nego (v q : Str) (hv : splitQ v = none) (hq : splitQ q = none) (hs :
   unfold parseNegoItem
   rw [splitQ_render v q hv]
   simp [hq, hs]
+
+/-! ### HTTP dates -/
+
+/-- **C18, HTTP dates at one-second resolution**: for every timestamp from 1970-01-01 00:00:00 to
+    9999-12-31 23:59:59, `http_to_time(time_to_http(t)) = t`.  Underneath: CPython's `_ymd2ord` inverts
+    `_ord2ymd` on every ordinal (`Poor.Date.ord_roundtrip`), the date is valid, the year has four
+    digits, and the canonical text parses back field by field. -/
+theorem C18_dates (t : Nat) (h : t < Poor.Date.T_MAX) :
+    Poor.Date.httpToTime (Poor.Date.timeToHttp t) = .ok t :=
+  Poor.Date.date_roundtrip t h
+
+/-- distinct seconds render differently -/
+theorem C18_dates_injective (t u : Nat) (ht : t < Poor.Date.T_MAX) (hu : u < Poor.Date.T_MAX)
+    (h : Poor.Date.timeToHttp t = Poor.Date.timeToHttp u) : t = u := by
+  have h1 := C18_dates t ht
+  rw [h, C18_dates u hu] at h1
+  exact (Poor.Date.PRes.ok.inj h1).symm
+
+/-- every rendered date has the fixed width of an IMF-fixdate -/
+theorem C18_dates_width (t : Nat) (h : t < Poor.Date.T_MAX) : (Poor.Date.timeToHttp t).length = 29 :=
+  Poor.Date.timeToHttp_length t h
+
+/-- non-vacuity: the leap day of 2000, and the last second covered -/
+example : String.ofList (Poor.Date.timeToHttp 951782400) = "Tue, 29 Feb 2000 00:00:00 GMT" := by decide +kernel
+example : String.ofList (Poor.Date.timeToHttp 253402300799) = "Fri, 31 Dec 9999 23:59:59 GMT" := by decide +kernel
+example : (253402300799 : Nat) < Poor.Date.T_MAX := by decide
 
 end Poor.Props.C18
